@@ -128,8 +128,9 @@ def stream_paths(t, d, ref, tail, dds_text, heavy=True):
     ts = X.tmpl_sexp(t)
     hexs = lambda chunks: "(%s)" % " ".join(hexb(c) for c in chunks)
     tr = X.TracingBytesReader(blob)
+    parsed = dds_to_dataset(dds_text)      # decoding does not change the declaration: parsed once
     try:
-        unpack_dap2_data(tr, dds_to_dataset(dds_text))
+        unpack_dap2_data(tr, parsed)
     except Exception:
         pass
     # -- StreamReader over an iterator of chunks (what open_dods_url / SequenceProxy wrap the body in)
@@ -138,7 +139,7 @@ def stream_paths(t, d, ref, tail, dds_text, heavy=True):
         try:
             it = iter(chunks)
             reader = StreamReader(it)
-            values = unpack_dap2_data(reader, dds_to_dataset(dds_text))
+            values = unpack_dap2_data(reader, parsed)
             probs = []
             got = X.canon(t, X.decoded_to_raw(values, t), probs)
             rest = bytes(reader.buf) + b"".join(it)
@@ -173,7 +174,8 @@ def stream_paths(t, d, ref, tail, dds_text, heavy=True):
         k = len(sdds) + 6
         hows = list(X.CHUNKINGS) + ["cut@%d" % k, "cut@%d" % (k - 1), "cut@%d" % (k - 3)]
         trs = X.TracingBytesReader(sref + tail)
-        template = dds_to_dataset(sdds)[c[1]]
+        sparsed = dds_to_dataset(sdds)
+        template = sparsed[c[1]]
         try:
             list(unpack_sequence(trs, template))
         except Exception:
@@ -190,7 +192,7 @@ def stream_paths(t, d, ref, tail, dds_text, heavy=True):
             try:
                 kw = {"application": app} if not how.startswith("session") else \
                     {"session": X.wsgi_session(app, gz=how.endswith("gzip"))}
-                proxy = SequenceProxy(URL, dds_to_dataset(sdds)[c[1]], **kw)
+                proxy = SequenceProxy(URL, template, **kw)
                 rows = list(X.materialise_rows(iter(proxy), c))
                 probs = []
                 out = ("ok", X.canon(c, rows, probs), None, probs)
